@@ -32,6 +32,58 @@ func (c *FnCtx) evalClause(st *State, cl Clause, env *CEnv) string {
 	return "true"
 }
 
+type namedGoal struct {
+	suffix string
+	goal   string
+	desc   string
+}
+
+// clauseGoals evaluates a clause; a top-level `each v in lo..hi: body` with constant bounds (possibly
+// behind implications) is expanded into one goal per instance.
+func (c *FnCtx) clauseGoals(st *State, cl Clause, env *CEnv) []namedGoal {
+	env = c.cenvDefault(env)
+	var hyps []string
+	e := cl.Expr
+	for {
+		call, ok := e.(*ast.CallExpr)
+		if !ok {
+			break
+		}
+		id, ok := call.Fun.(*ast.Ident)
+		if !ok {
+			break
+		}
+		if id.Name == "implies_" {
+			hyps = append(hyps, c.ceBool(st, call.Args[0], env))
+			e = call.Args[1]
+			continue
+		}
+		if id.Name == "each_" {
+			vn := call.Args[0].(*ast.Ident).Name
+			lo, ok1 := call.Args[1].(*ast.BasicLit)
+			hi, ok2 := call.Args[2].(*ast.BasicLit)
+			if !ok1 || !ok2 {
+				c.unsupportedf(token.NoPos, "each: bounds must be integer literals")
+				break
+			}
+			var out []namedGoal
+			for k := atoi(lo.Value); k < atoi(hi.Value); k++ {
+				nenv := *env
+				nenv.bound = map[string]Val{}
+				for kk, v := range env.bound {
+					nenv.bound[kk] = v
+				}
+				nenv.bound[vn] = UConst{big.NewInt(int64(k))}
+				g := c.ceBool(st, call.Args[3], &nenv)
+				out = append(out, namedGoal{fmt.Sprintf("#%s=%d", vn, k), implies(and(hyps...), g), fmt.Sprintf(" [%s=%d]", vn, k)})
+			}
+			return out
+		}
+		break
+	}
+	return []namedGoal{{"", c.evalClause(st, cl, env), ""}}
+}
+
 func (c *FnCtx) cenvDefault(env *CEnv) *CEnv {
 	if env != nil {
 		return env
@@ -377,6 +429,25 @@ func (c *FnCtx) ceCall(st *State, x *ast.CallExpr, env *CEnv, want *SV) Val {
 			return SV{fmt.Sprintf("(forall ((%s (_ BitVec 64))) %s)", bv, implies(rng, body)), SBool, false}
 		}
 		return SV{fmt.Sprintf("(exists ((%s (_ BitVec 64))) %s)", bv, and(rng, body)), SBool, false}
+	case "each_":
+		vn := x.Args[0].(*ast.Ident).Name
+		lo, ok1 := x.Args[1].(*ast.BasicLit)
+		hi, ok2 := x.Args[2].(*ast.BasicLit)
+		if !ok1 || !ok2 {
+			c.unsupportedf(token.NoPos, "each: bounds must be integer literals")
+			return SV{"true", SBool, false}
+		}
+		var cs []string
+		for k := atoi(lo.Value); k < atoi(hi.Value); k++ {
+			nenv := *env
+			nenv.bound = map[string]Val{}
+			for kk, v := range env.bound {
+				nenv.bound[kk] = v
+			}
+			nenv.bound[vn] = UConst{big.NewInt(int64(k))}
+			cs = append(cs, c.ceBool(st, x.Args[3], &nenv))
+		}
+		return SV{and(cs...), SBool, false}
 	case "ite":
 		cnd := c.ceBool(st, x.Args[0], env)
 		a := c.ce(st, x.Args[1], env, want)
